@@ -156,6 +156,18 @@ func (p *Pipe) Open(_ *transport.Args) error {
 		return p.OpenErr
 	}
 
+	if p.closed {
+		// a new session through the same transport object
+		p.closed = false
+		p.lost = false
+		p.out = nil
+		p.nocut = nil
+		p.bounds = nil
+		p.delivered = p.produced
+		p.mark = p.produced
+		p.StallAt, p.LoseAt = -1, -1
+	}
+
 	p.opened = true
 	if p.R != nil {
 		st := p.R.Start()
